@@ -108,7 +108,9 @@ func flRun(base string, ca interface{}, pool interface{}, f []string, o *Out, px
 	if len(f) > 9 {
 		late, _ = strconv.Atoi(f[9])
 	}
-	metrics.Global = metrics.NewMetrics()
+	if !raceEnabled {
+		metrics.Global = metrics.NewMetrics()
+	}
 	cfg := config.NewDefault()
 	cfg.Proxy.UpstreamDefaultHttps.Overwrite(false)
 	cfg.Proxy.CachePolicy.IgnoreCacheControl.Overwrite(false)
